@@ -131,9 +131,10 @@ namespace Res4
 def add (a b : Res4) : Res4 := ⟨a.cpu + b.cpu, a.mem + b.mem, Vector.zipWith (· + ·) a.cores b.cores, Vector.zipWith (· + ·) a.numa b.numa⟩
 def neg (a : Res4) : Res4 := ⟨-a.cpu, -a.mem, a.cores.map (- ·), a.numa.map (- ·)⟩
 def zero : Res4 := ⟨0, 0, Vector.replicate nCores 0, Vector.replicate nNuma 0⟩
-/-- componentwise ≤ (capacity check) -/
+/-- capacity check: memory, every core's pieces and every NUMA node's memory stay within
+capacity (the scalar CPU amount of unbound requests is not capacity-limited by the plugin) -/
 def le (a b : Res4) : Bool :=
-  decide (a.cpu ≤ b.cpu) && decide (a.mem ≤ b.mem) &&
+  decide (a.mem ≤ b.mem) &&
   (List.range nCores).all (fun i => decide (a.cores.toList.getD i 0 ≤ b.cores.toList.getD i 0)) &&
   (List.range nNuma).all (fun i => decide (a.numa.toList.getD i 0 ≤ b.numa.toList.getD i 0))
 end Res4
